@@ -315,6 +315,21 @@ def classify(e, kind, host, root, removable, commute, impl, strict, lax):
         _, lax0 = spec.match_spec(e.P, host.G, root, False, commute, host.index)
         if all(i in lax0 for i in impl):
             return "kind=unsound;mech=removability_not_enforced"
+    if kind == "raises" and "or_bt" in f and "shared_node" in f:
+        # the exception of MatchResult.merge_current_match after a tag_var was bound twice: a shared node pattern is matched
+        # again because its node binding, made inside an OR alternative, was not merged back (see or_merge_shared_node)
+        return "kind=raises;mech=or_merge_shared_node"
+    if kind == "incomplete" and commute and len(spec.output_nodes(e.P)) >= 3:
+        # experiment: the swapped variants written out and compiled afresh (not cloned by GraphPattern.commute).  If one of
+        # those matches where no clone does, the clone is at fault: clones have no op identifier, and with >= 3 output nodes
+        # the candidate lists of the 2nd, 3rd.. output node are then one shared, exhausted iterator
+        for Q in spec.commute_variants(e.P) or []:
+            ck = (e.src, "variant", tuple(sorted(Q.get("_swap", ()))))
+            if ck not in _REORDER_CACHE:
+                _REORDER_CACHE[ck] = compile_pattern({"nodes": Q["nodes"], "outs": Q["outs"]}, want_commute=False)
+            e2 = _REORDER_CACHE[ck]
+            if e2.pat is not None and impl_run(e2, host, root, removable, False)[0]:
+                return "kind=incomplete;mech=commute_multi_output_ge3"
     if kind == "incomplete" and "or_bt" in f:
         # experiment: put, at every OR, the alternative used by one strict instance first.  If the real matcher then
         # reports the match, its answer depends on the order of the alternatives = commitment to the first alternative
@@ -363,10 +378,6 @@ def classify(e, kind, host, root, removable, commute, impl, strict, lax):
             if err or any(i not in l2 for i in r2) or (s2 and not r2):
                 mech = "or_other"
                 break
-    elif kind == "incomplete" and commute and len(spec.output_nodes(e.P)) >= 3:
-        # with >= 3 output nodes the candidate lists of the 2nd, 3rd.. output node of a *cloned* (commuted) pattern are one
-        # shared iterator (clones have no op identifier): predicate only, the witness shows the rest
-        mech = "commute_multi_output_ge3"
     elif "multi" in f:
         mech = "multi_output_node"
     elif "or_disp" in f:
